@@ -172,6 +172,11 @@ def stepRest (c : Ctx) (toks : List String) : Ctx × String :=
     | some sv, some nfev, some fx, some xs =>
       ({ c with sv := some { sv with localRes := some { x := xs, fx := fx, nfev := nfev } } }, "ok")
     | _, _, _, _ => (c, "bad-op")
+  | ["sv.setparams", lim, eps] =>
+    -- the caller changes `parameters.itersLimit` / `parameters.eps` of the shared parameters object in place
+    match c.sv, lim.toNat?, parseF eps with
+    | some sv, some lim, some eps => ({ c with sv := some { sv with p := { sv.p with itersLimit := lim, eps := eps } } }, "ok")
+    | _, _, _ => (c, "bad-op")
   | ["sv.iter", k] =>
     match c.sv, k.toNat? with
     | some sv, some k =>
